@@ -125,10 +125,29 @@ def prepare(lay, cfg):
             os.unlink(p)
         # (store.toml is also read at the start of build, and /dev/full reads as an endless stream of zeros: there a link into a
         # directory that does not exist is used instead - reads as "no store", cannot be created)
-        os.symlink("/dev/full" if cfg["unwritable"] != "store.toml" else "/nonexistent-vp-dir/store.toml", p)
+        if cfg.get("unwritable_kind") == "dir":
+            # ... or as a (non-empty) directory: it exists, and cannot even be opened for writing
+            os.makedirs(os.path.join(p, "sub"))
+        else:
+            os.symlink("/dev/full" if cfg["unwritable"] != "store.toml" else "/nonexistent-vp-dir/store.toml", p)
     if isinstance(cfg["beh"], dict) and cfg["beh"].get("result") == "layer_err":
         with open(os.path.join(lay.layers, "blocked"), "w") as f:
             f.write("a file where a layer directory should go")
+
+
+def provides(cfg):
+    """does the result the buildpack code returns provide the output this configuration makes unwritable?"""
+    out, b = cfg.get("unwritable"), cfg["beh"]
+    if not out:
+        return False
+    if cfg["name"] == "detect":
+        return out == "plan.toml" and b == "plan"
+    if not isinstance(b, dict) or b.get("result") != "ok":
+        return False
+    if out in ("launch.toml", "store.toml"):
+        return bool(b.get(out.split(".")[0]))
+    kind, _, fmt, _ = out.split(".")
+    return fmt in b.get(kind + "_sboms", [])
 
 
 def expectation(cfg):
@@ -144,7 +163,7 @@ def expectation(cfg):
     plat_ok = cfg["platform"] != "env-is-file" and (name == "detect" or cfg["platform"] not in ("plan-missing", "plan-malformed"))
     if cfg["toml"] == "ok-broken-rest" or not env_ok or not plat_ok:
         return {"reach": False, "status": "error", "on_error": 1}
-    if cfg.get("unwritable"):
+    if provides(cfg):
         # the buildpack code runs and succeeds, writing its result fails: an error (handler once, neither 0 nor 100)
         return {"reach": True, "status": "error", "on_error": 1}
     if name == "detect":
@@ -248,7 +267,10 @@ def run_cfg(lay, cfg, idx, seed, sh):
     # ---- files
     changed = {k for k in set(pre) | set(post) if pre.get(k) != post.get(k)}
     allowed = set()
-    if cfg.get("unwritable"):
+    if cfg.get("unwritable") and not provides(cfg):
+        # an output that cannot be written and that the result does not provide: nothing is to be written there, the statuses are the ordinary ones
+        sh.nontrivial.add(("unwritable-idle", cfg["unwritable"], cfg.get("unwritable_kind", "full"), cell(cfg)[-1]))
+    if provides(cfg):
         # the error is reported (checked above); which of the other outputs were already written is not specified
         sh.nontrivial.add(("unwritable", cfg["unwritable"], cell(cfg)[-1]))
         return
@@ -379,6 +401,16 @@ def run(tier, seed, work):
             only = {"result": "ok", "launch": out == "launch.toml", "store": out == "store.toml", "build_sboms": [out.split(".")[2]] if out.startswith("build.sbom") else [],
                     "launch_sboms": [out.split(".")[2]] if out.startswith("launch.sbom") else []}
             cfgs.append({"name": name, "argc": 3, "toml": "ok", "envmask": [True] * 5, "platform": "ok", "pre": False, "unwritable": out, "beh": only})
+            # ... and with results that do not provide it: success, error result
+            none = {"result": "ok", "launch": False, "store": False, "build_sboms": [], "launch_sboms": []}
+            cfgs.append({"name": name, "argc": 3, "toml": "ok", "envmask": [True] * 5, "platform": "ok", "pre": False, "unwritable": out, "beh": none})
+            cfgs.append({"name": name, "argc": 3, "toml": "ok", "envmask": [True] * 5, "platform": "ok", "pre": False, "unwritable": out, "beh": {"result": "boom-build"}})
+        else:
+            for b in DETECT_BEH:
+                if b != "plan":
+                    cfgs.append({"name": name, "argc": 2, "toml": "ok", "envmask": [True] * 5, "platform": "ok", "pre": False, "unwritable": out, "beh": b})
+    # every one of these again with the output being a directory (store.toml excepted: it is also an input, read before the buildpack code runs)
+    cfgs += [dict(c, unwritable_kind="dir") for c in cfgs if c.get("unwritable") and c["unwritable"] != "store.toml"]
     items = list(enumerate(cfgs))
     for d in vp.pmap(shard_run, [(s, seed, work) for s in vp.split(items, vp.NCPU * 2)]):
         res.merge(d)
